@@ -278,3 +278,40 @@ Proof.
       change (a :: b :: c :: d :: t4) with ([a; b; c; d] ++ t4). constructor; [apply U4c; assumption | apply IH; [lia|assumption]]. }
   intros s. apply (Hgen (length s)). lia.
 Qed.
+
+Lemma between_false : forall lo hi b, between lo hi b = false -> b < lo \/ hi < b.
+Proof.
+  intros lo hi b H. unfold between in H. destruct (lo <=? b) eqn:H1; destruct (b <=? hi) eqn:H2; cbn [andb] in H; try discriminate;
+    try (apply Z.leb_gt in H1; lia); apply Z.leb_gt in H2; lia.
+Qed.
+
+Lemma between_true : forall lo hi b, lo <= b <= hi -> between lo hi b = true.
+Proof. intros lo hi b H. unfold between. apply andb_true_intro. split; apply Z.leb_le; lia. Qed.
+
+Lemma between_out : forall lo hi b, b < lo \/ hi < b -> between lo hi b = false.
+Proof.
+  intros lo hi b H. unfold between. destruct (lo <=? b) eqn:H1; destruct (b <=? hi) eqn:H2; cbn [andb]; try reflexivity.
+  apply Z.leb_le in H1, H2. lia.
+Qed.
+
+(* decide every range / equality test in the goal from the ranges in the context, without case splits *)
+Ltac settle_tests :=
+  repeat match goal with
+  | |- context [between ?lo ?hi ?x] =>
+    first [rewrite (between_true lo hi x) by lia | rewrite (between_out lo hi x) by lia]
+  | |- context [?x =? ?k] =>
+    first [rewrite (proj2 (Z.eqb_eq x k)) by lia | rewrite (proj2 (Z.eqb_neq x k)) by lia]
+  end.
+
+Lemma valid_utf8b_complete : forall s, valid_utf8 s -> valid_utf8b s = true.
+Proof.
+  intros s H. induction H as [|c s Hc Hs IH]; [reflexivity|].
+  destruct Hc; cbn [app valid_utf8b]; unfold is_tail in *;
+    repeat match goal with
+    | H : between _ _ _ = true |- _ => apply between_spec in H
+    end;
+    settle_tests; cbn [andb orb]; exact IH.
+Qed.
+
+Theorem valid_utf8b_iff : forall s, valid_utf8b s = true <-> valid_utf8 s.
+Proof. intros s. split; [apply valid_utf8b_sound | apply valid_utf8b_complete]. Qed.
